@@ -52,7 +52,8 @@ _RE_SIMSTAT = re.compile(r"The number of states generated: (\d+)")
 
 
 def _java_opts(extra_lib=None, dfs=False, heap=None):
-    libs = [SPEC] + (extra_lib or [])
+    # directories given in extra_lib take precedence over /verif/spec (module variants)
+    libs = list(extra_lib or []) + [SPEC]
     opts = ["-DTLA-Library=" + os.pathsep.join(libs), "-XX:ParallelGCThreads=4"]
     if dfs:
         opts.append("-Dtlc2.tool.queue.IStateQueue=StateDeque")
@@ -82,6 +83,7 @@ def run(
     extra_files=None,
     continue_=False,
     max_print=None,
+    lib_first=None,
 ):
     """Run TLC.
 
@@ -138,7 +140,7 @@ def run(
             args += ["-seed", str(seed)]
         args += ["-config", root + ".cfg", root + ".tla"]
         e = dict(os.environ)
-        e["JAVA_TOOL_OPTIONS"] = _java_opts(dfs=dfs, heap=heap)
+        e["JAVA_TOOL_OPTIONS"] = _java_opts(extra_lib=lib_first, dfs=dfs, heap=heap)
         if env:
             e.update({k: str(v) for k, v in env.items()})
         t0 = time.time()
